@@ -324,6 +324,10 @@ func main() {
 		return
 	}
 	n := 0
+	// (c) context binding of proof-carrying messages (binding.go)
+	if vkit.Want("binding") {
+		contextBinding(res, &n)
+	}
 	// (a) adversarial identifier sets with equal concatenations / shared prefixes
 	advPairs := [][2][]string{{{"a", "bc", "x"}, {"ab", "c", "x"}}, {{"a", "bc"}, {"ab", "c"}}, {{"a", "b", "c"}, {"ab", "c"}}, {{"a", "ab", "abc"}, {"a", "aab", "bc"}}}
 	// identifier sets that collide under a length prefix of w bytes that WRAPS (a count stored in too narrow an
